@@ -6,7 +6,8 @@ CFG = {
     "prop_file": "theories/Properties/C15.v",
     "theory_files": ["theories/Base/Bytes.v", "theories/Base/BytesProofs.v",
                      "theories/Formats/Splat.v", "theories/Formats/SplatProofs.v",
-                     "theories/Formats/Spz.v", "theories/Formats/SpzProofs.v", "theories/Formats/SplatReal.v", "theories/Formats/SplatPlyLink.v"],
+                     "theories/Formats/Spz.v", "theories/Formats/SpzProofs.v", "theories/Formats/SplatReal.v", "theories/Formats/SplatPlyLink.v",
+                     "theories/Formats/SplatInterval.v", "theories/Formats/SpzExtra.v", "theories/Formats/SpzExtraProofs.v"],
     "level_text": "Coq theorems about byte-level models of splat.Write/Read (32-byte records, exact rational "
                   "quantisers/dequantisers, count law, round trip within one 8-bit step, prefix behaviour, the pinned "
                   "rotation wrap refuted) and of spz.Read (header, planar arrays, 24-bit sign extension, half floats, "
